@@ -193,7 +193,7 @@ def _op_line(op, kind):
     if o == "uttl":
         return "uttl %d" % op["d"]
     if o == "tick":
-        return "tick %d" % op["d"]
+        return "tick %d" % (op["d"] * vlib.R)     # the model's time unit is the ttl unit
     return o  # clean, age, clear
 
 
@@ -206,11 +206,11 @@ def suffix(kind, cap, nkeys, tick):
     if kind in ("lfu", "lfuda"):
         s += ["findc %d 1" % k for k in range(1, nkeys + 1)]
     if kind == "lfuda":
-        s += ["tick %d" % (tick + 1), "age"] + ["findc %d 1" % k for k in range(1, nkeys + 1)]
+        s += ["tick %d" % ((tick + 1) * vlib.R), "age"] + ["findc %d 1" % k for k in range(1, nkeys + 1)]
     if kind in ("tlru", "utlru", "utmap", "utset"):
         p = 1 if kind in ("tlru", "utlru") else 0
         for _ in range(3):
-            s += ["tick 1", "findr %d 0 %d %s" % (p, nkeys, allk)]
+            s += ["tick %d" % vlib.R, "findr %d 0 %d %s" % (p, nkeys, allk)]
         s += ["clean"]
     if kind in ("lru", "tlru", "utlru", "fifo"):
         d = 9
